@@ -477,6 +477,10 @@ func (g *Gen) ResponseOrRef() M {
 			g.hit("respref:valid")
 			return M{"$ref": "#/responses/" + jsonPtrEscape(g.pick(g.respNames))}
 		case g.RefValidOnly:
+		case g.p(0.2):
+			// a reference to the document root: a $ref all the same (its URL is non-nil although it prints as "")
+			g.hit("respref:root")
+			return M{"$ref": "#"}
 		default:
 			g.hit("respref:dangling")
 			return M{"$ref": "#/responses/nope"}
